@@ -132,6 +132,9 @@ struct Ctx
     std::string                         saved; // bytes of the last save
 };
 
+// ---- C18 table query ops (rel, symname, symvalue, arr32, arr64, versym, verneed, verdef, arrange, swap, alarm)
+#include "c18_ops.hpp"
+
 static void run_case( const std::vector<Toks>& ops, FILE* out )
 {
     std::vector<std::unique_ptr<Ctx>> objs;
@@ -625,6 +628,8 @@ static void run_case( const std::vector<Toks>& ops, FILE* out )
             dump::section_datas( os, *c.elf );
             dump::segment_datas( os, *c.elf );
             fprintf( out, "dump=ok\n" );
+        }
+        else if ( c18::op( c, t, out ) ) { // ---- C18 table query ops
         }
         else
             fprintf( out, "bad-op\n" );
